@@ -151,7 +151,8 @@ func main() {
 	flag.Parse()
 	r := lib.Rand()
 	w := lib.NewWriter(header, 80)
-	n := lib.Count(60, 1500)
+	defer w.Guard()
+	n := lib.Count(60, 600)
 
 	// PKI: two roots, intermediates of depth 0..3 below them
 	roots := []*pki.Entity{pki.Issue(pki.Opts{CN: "root A", IsCA: true, KeyIdx: 0}, nil), pki.Issue(pki.Opts{CN: "root B", IsCA: true, KeyKind: "rsa2048", KeyIdx: 0}, nil)}
@@ -486,7 +487,7 @@ func main() {
 		code     int
 		served   []byte
 	}
-	for round := 0; round < lib.Count(3, 30); round++ {
+	for round := 0; round < lib.Count(3, 12); round++ {
 		root := roots[r.Intn(len(roots))]
 		var sharedInter []*pki.Entity
 		parent := root
